@@ -8,3 +8,10 @@ import NormModel.Properties.C03
 #print axioms Norm.C03.line_comment_iff
 #print axioms Norm.C03.block_comment_iff
 #print axioms Norm.C03.counters_exact
+#print axioms Norm.C03.tokDiag_name
+#print axioms Norm.C03.tokDiag_highlights
+#print axioms Norm.C03.linelen_e2e
+#print axioms Norm.C03.linelen_source
+#print axioms Norm.C03.newline_column_rest
+#print axioms Norm.C03.long_line_reported
+#print axioms Norm.C03.short_lines_silent
